@@ -110,19 +110,30 @@ theorem generateKey_some {priv : Bytes} {k : PrivateKey} (h : generateKey priv =
     · simp only [modExp_eq _ _ _ modp_bounds.1]
       cases hc : (Bytes.toNatBE priv % 2 == 0) <;> simp
 
-/-- the number a peer decodes from the sent bytes is `±X` in `ZMod p` -/
-theorem sent_cast (coin : Bool) (x : ℕ) :
-    ((Bytes.toNatBE (fillBytes (if coin then modpGroup - gen ^ x % modpGroup else gen ^ x % modpGroup)) : ℕ) :
-        ZMod modpGroup) = if coin then -((gen : ZMod modpGroup) ^ x) else (gen : ZMod modpGroup) ^ x := by
-  have hp := modp_bounds
-  have hX : gen ^ x % modpGroup < modpGroup := Nat.mod_lt _ hp.1
+/-- the number a peer decodes from the sent bytes is `±X` in `ZMod p` (any modulus that fits) -/
+theorem sent_cast (p : ℕ) (hp0 : 0 < p) (hp : p < 256 ^ size) (g : ℕ) (coin : Bool) (x : ℕ) :
+    ((Bytes.toNatBE (fillBytes (if coin then p - g ^ x % p else g ^ x % p)) : ℕ) : ZMod p)
+      = if coin then -((g : ZMod p) ^ x) else (g : ZMod p) ^ x := by
+  have hX : g ^ x % p < p := Nat.mod_lt _ hp0
   cases coin
   · simp only [Bool.false_eq_true, ↓reduceIte]
-    rw [toNatBE_fillBytes (Nat.lt_trans hX hp.2)]
+    rw [toNatBE_fillBytes (Nat.lt_trans hX hp)]
     simp [ZMod.natCast_mod]
   · simp only [↓reduceIte]
-    rw [toNatBE_fillBytes (Nat.lt_of_le_of_lt (Nat.sub_le _ _) hp.2), Nat.cast_sub hX.le]
+    rw [toNatBE_fillBytes (Nat.lt_of_le_of_lt (Nat.sub_le _ _) hp), Nat.cast_sub hX.le]
     simp [ZMod.natCast_mod]
+
+/-- agreement of the residues over `Nat`, for any modulus that fits `Size` bytes -/
+theorem agree_nat (p : ℕ) (hp0 : 0 < p) (hp : p < 256 ^ size) (g xa xb : ℕ) (ea : Even xa) (eb : Even xb)
+    (ca cb : Bool) :
+    Bytes.toNatBE (fillBytes (if cb then p - g ^ xb % p else g ^ xb % p)) ^ xa % p
+      = Bytes.toNatBE (fillBytes (if ca then p - g ^ xa % p else g ^ xa % p)) ^ xb % p := by
+  have key := udh_zmod p (g : ZMod p) xa xb ea eb ca cb
+  rw [← sent_cast p hp0 hp g cb xb, ← sent_cast p hp0 hp g ca xa] at key
+  have key' : ((Bytes.toNatBE (fillBytes (if cb then p - g ^ xb % p else g ^ xb % p)) ^ xa : ℕ) : ZMod p)
+      = ((Bytes.toNatBE (fillBytes (if ca then p - g ^ xa % p else g ^ xa % p)) ^ xb : ℕ) : ZMod p) := by
+    rw [Nat.cast_pow, Nat.cast_pow]; exact key
+  exact (ZMod.natCast_eq_natCast_iff' _ _ _).mp key'
 
 /-- **Agreement of the executable model**, for all private byte strings (any low bits, i.e. all
 four `X` / `p−X` combinations, extreme values included) -/
@@ -134,13 +145,6 @@ theorem udh_model_agree (privA privB : Bytes) (ka kb : PrivateKey)
   have hp := modp_bounds
   unfold handshake
   rw [modExp_eq _ _ _ hp.1, modExp_eq _ _ _ hp.1, pa, pb, ba, bb]
-  refine congrArg fillBytes ?_
-  -- equality of the residues, via ZMod p
-  have key := udh_zmod modpGroup (gen : ZMod modpGroup) xa xb ea eb ca cb
-  rw [← sent_cast cb xb, ← sent_cast ca xa] at key
-  have key' : ((Bytes.toNatBE (fillBytes (if cb then modpGroup - gen ^ xb % modpGroup else gen ^ xb % modpGroup)) ^ xa : ℕ) : ZMod modpGroup)
-      = ((Bytes.toNatBE (fillBytes (if ca then modpGroup - gen ^ xa % modpGroup else gen ^ xa % modpGroup)) ^ xb : ℕ) : ZMod modpGroup) := by
-    rw [Nat.cast_pow, Nat.cast_pow]; exact key
-  exact (ZMod.natCast_eq_natCast_iff' _ _ _).mp key'
+  exact congrArg fillBytes (agree_nat modpGroup hp.1 hp.2 gen xa xb ea eb ca cb)
 
 end O4.UniformDH
